@@ -22,6 +22,9 @@ CONSTANTS Buf,        \* line-buffer-size
                       \*  "D14" ... and records the header as handled in its mode-change branch too
                       \*  "D2"  entering a merge-conflict region first paints the buffered -/+ lines
                       \*        (and emits a hunk header that is still pending)
+                      \*  "D18" a "---" line of a diff -u stream opens a new file section
+                      \*  "D19" a Submodule log line first writes the header still owed to the previous section
+                      \*  "D20" "+++ /dev/null" keeps the language chosen from the old name (deleted file)
                       \* Fixes = {} is the tree as pinned; the regression configs drop one fix and
                       \* must produce a counterexample (the design-level check is not vacuous).
 FixEmit == "D1" \in Fixes
@@ -36,7 +39,10 @@ InitS == [st |-> "Unknown", mf |-> NoFile, pf |-> NoFile, mev |-> "none", pev |-
           src |-> "Unknown",                    \* Source: "Unknown" | "Git" | "DiffU"
           m3 |-> NotNeeded,                     \* AmbiguousDiffMinusCounter (NotNeeded, or old-side lines still due)
           comb |-> FALSE,                       \* DiffType::Combined
-          mcp |-> "", mo |-> <<>>, ma |-> <<>>, mt |-> <<>>]   \* merge conflict phase and buffered lines
+          mcp |-> "", mo |-> <<>>, ma |-> <<>>, mt |-> <<>>,   \* merge conflict phase and buffered lines
+          syn |-> 0,                            \* Painter.syntax: id of the file whose name chose the language (0 = the default language)
+          hl |-> 0,                             \* Painter.highlighter: the language it was created for (set_highlighter)
+          sy |-> <<>>]                          \* <<k, language>> for each hunk line painted, in painting order
 
 HunkStates == {"HunkHeader", "HunkZero", "HunkMinus", "HunkPlus"}
 ThreeDashesExpected(s) == s.m3 = NotNeeded \/ s.m3 <= 0
@@ -44,8 +50,10 @@ CountLine(s) == IF s.m3 = NotNeeded THEN s ELSE [s EXCEPT !.m3 = @ - 1]
 
 
 \* Painter::paint_buffered_minus_and_plus_lines (unified view: all minus rows, then all plus rows)
+\* (the buffered lines are highlighted now, with the highlighter as it is now)
 Flush(s) == [s EXCEPT !.ob = @ \o [i \in 1..Len(s.mb) |-> Row("minus", s.mb[i], <<>>)]
                                \o [i \in 1..Len(s.pb) |-> Row("plus", s.pb[i], <<>>)],
+                      !.sy = @ \o [i \in 1..Len(s.mb) |-> <<s.mb[i], s.hl>>] \o [i \in 1..Len(s.pb) |-> <<s.pb[i], s.hl>>],
                       !.mb = <<>>, !.pb = <<>>]
 \* Painter::emit
 Emit(s) == [s EXCEPT !.w = @ \o s.ob, !.ob = <<>>]
@@ -110,13 +118,14 @@ HMinusHdr(s, k, line) ==
       s0 == IF s.src = "DiffU" THEN [s EXCEPT !.st = "DiffHeader", !.hh = 0,
                                               !.seck = IF line.kd = "dufile" THEN k ELSE @,
                                               !.handled = IF "D18" \in Fixes /\ line.c \in {"mmm", "minus3"} THEN <<>> ELSE @] ELSE s
-      s1 == Flush([s0 EXCEPT !.mf = line.f, !.mev = ev])
+      s1 == Flush([s0 EXCEPT !.mf = line.f, !.mev = ev, !.syn = line.f])   \* set_syntax(old name; None for /dev/null)
   IN FallThrough(s1, k)
 
 \* handle_diff_header_plus_line: writes the file header, then falls through
 HPlusHdr(s, k, line) ==
   LET ev == CASE line.c = "rento" -> "rename" [] line.c = "copyto" -> "copy" [] OTHER -> "change"
-      s1 == Flush([s EXCEPT !.pf = line.f, !.pev = ev, !.cur = <<s.mf, line.f>>])
+      s1 == Flush([s EXCEPT !.pf = line.f, !.pev = ev, !.cur = <<s.mf, line.f>>,
+                            !.syn = IF line.f = 0 /\ "D20" \in Fixes THEN @ ELSE line.f])   \* set_syntax(new name)
       s2 == IF s1.handled # s1.cur THEN WriteHeader(Emit(s1)) ELSE s1
   IN FallThrough(s2, k)
 
@@ -137,7 +146,7 @@ HBinary(s, k, line) ==
   ELSE [s EXCEPT !.bin = TRUE]
 
 \* emit_hunk_header_line
-EmitHH(s) == IF s.hh = 0 THEN s ELSE [Direct(Emit(Flush(s)), Row("hunkHdr", s.hh, <<>>)) EXCEPT !.hh = 0]
+EmitHH(s) == IF s.hh = 0 THEN s ELSE [Direct(Emit(Flush(s)), Row("hunkHdr", s.hh, <<>>)) EXCEPT !.hh = 0, !.hl = s.syn]   \* set_highlighter
 
 \* handle_hunk_line
 HHunkLine(s, k, line) ==
@@ -148,7 +157,8 @@ HHunkLine(s, k, line) ==
                    IN CountLine([a EXCEPT !.mb = Append(@, k), !.st = "HunkMinus"])
               [] line.c \in {"plus", "plus3"} -> [s1 EXCEPT !.pb = Append(@, k), !.st = "HunkPlus"]
               [] line.c = "zero" ->
-                   LET a == Flush(s1) IN CountLine([a EXCEPT !.ob = Append(@, Row("zero", k, <<>>)), !.st = "HunkZero"])
+                   LET a == Flush(s1) IN CountLine([a EXCEPT !.ob = Append(@, Row("zero", k, <<>>)), !.st = "HunkZero",
+                                                               !.sy = Append(@, <<k, a.hl>>)])
               [] OTHER ->
                    LET a == Flush(s1) IN [a EXCEPT !.ob = Append(@, Row("raw", k, <<>>)), !.st = "HunkZero"]
   IN Emit(s2)
@@ -159,10 +169,12 @@ PaintConflict(s, k) ==
   LET a == Emit(s)
       b == Direct(Direct(a, Row("bar", k, <<>>)), Row("mergeHdr", k, <<>>))
       c == Emit([Emit(b) EXCEPT !.ob = @ \o [i \in 1..Len(s.ma) |-> Row("minus", s.ma[i], <<>>)]
-                                       \o [i \in 1..Len(s.mo) |-> Row("plus", s.mo[i], <<>>)]])
+                                       \o [i \in 1..Len(s.mo) |-> Row("plus", s.mo[i], <<>>)],
+                                !.sy = @ \o [i \in 1..Len(s.ma) |-> <<s.ma[i], s.hl>>] \o [i \in 1..Len(s.mo) |-> <<s.mo[i], s.hl>>]])
       d == Direct(c, Row("mergeHdr", k, <<>>))
       e == Emit([Emit(d) EXCEPT !.ob = @ \o [i \in 1..Len(s.ma) |-> Row("minus", s.ma[i], <<>>)]
-                                       \o [i \in 1..Len(s.mt) |-> Row("plus", s.mt[i], <<>>)]])
+                                       \o [i \in 1..Len(s.mt) |-> Row("plus", s.mt[i], <<>>)],
+                                !.sy = @ \o [i \in 1..Len(s.ma) |-> <<s.ma[i], s.hl>>] \o [i \in 1..Len(s.mt) |-> <<s.mt[i], s.hl>>]])
   IN [Direct(e, Row("bar", k, <<>>)) EXCEPT !.mo = <<>>, !.ma = <<>>, !.mt = <<>>, !.mcp = "", !.st = "HunkZero"]
 HConflict(s, k, line) ==
   LET c == line.c IN
@@ -221,6 +233,8 @@ Step(s, k, line) == StepD(Detect(s, line), k, line)
 \* end of input: handle_pending_line_with_diff_name; paint_buffered...; emit
 Finish(s) == Emit(Flush(Pending(s)))
 
-\* everything but the bytes already written
-Rest(s) == [s EXCEPT !.w = <<>>]
+\* everything but the bytes already written.  (The painter's language and highlighter survive a "diff"
+\* line; they are replaced by the section's own ---/+++ and @@ lines before any line is highlighted:
+\* that is the invariant LanguageByName, so they are not part of what a section start must reset.)
+Rest(s) == [s EXCEPT !.w = <<>>, !.sy = <<>>, !.syn = 0, !.hl = 0]
 =============================================================================
